@@ -119,6 +119,12 @@ class ProgGen(object):
         for _ in range(300):
             x = round(r.uniform(0, BED), 2)
             y = round(r.uniform(0, BED), 2)
+            if r.random() < 0.06:
+                # bed edge: a coordinate of exactly 0 is a legal value, not a missing one
+                if r.random() < 0.5:
+                    x = 0.0
+                else:
+                    y = 0.0
             d = depth_in(self.regs, x, y) if self.regs else -1.0
             if abs(d) < self.margin:
                 continue
@@ -140,6 +146,9 @@ class ProgGen(object):
     def eword(self, target):
         """E word for the file coordinate `target` (mm), snapped to the 0.0254 mm grid: exact decimal in mm and in inches,
         so that retract/recover cycles have equal length whatever the units are."""
+        if not self.f.get("egrid", True):
+            s = fmt(target / self.unit, 9)
+            return "E" + respell(self.r, s, self.hostile), float(s) * self.unit
         k = int(round(target / EGRID))
         s = fmt(k * EGRID, 4) if self.unit == 1.0 else fmt(k * 0.001, 3)
         return "E" + respell(self.r, s, self.hostile), float(s) * self.unit
@@ -235,7 +244,7 @@ class ProgGen(object):
         elif k < 0.65 and f.get("g92e", True):
             if self.retracted and not f.get("g92e_retracted", False):
                 return self.step(depth + 1) if depth < 5 else None
-            v = r.choice([0.0, 0.0, 5.08, 101.6, 2.54])
+            v = r.choice([0.0, 0.0, 5.08, 101.6, 2.54, self.f.get("ramt", 3.048)])     # the last one: next retraction ends at exactly E0
             w, newe = self.eword(v)
             if self.retracted:
                 # keep the cycle matched: the recover word is shifted by the same amount
@@ -328,9 +337,15 @@ class ProgGen(object):
             self.emit("G1 E%s" % s)
             self.f["g92e"] = True
             self.tags.add("tiny-extrusion")
-            # bring the file's E back onto the grid so that later cycles stay matched
-            w, self.e = self.eword(self.e)
-            self.emit("G92 " + w)
+            if self.f.get("egrid", True):
+                # bring the file's E back onto the grid so that later cycles stay matched
+                w, self.e = self.eword(self.e)
+                self.emit("G92 " + w)
+            elif r.random() < 0.5 and not self.is_retracted():
+                # E coordinate such that the next retraction ends at a tiny value
+                s = fmt((self.f.get("ramt", 3.048) + r.choice([0.00001, 0.000003, 0.00002])) / self.unit, 9)
+                self.e = float(s) * self.unit
+                self.emit("G92 E" + s)
         elif k < 0.75:
             # far away destination (outside every region), then back
             big = r.choice([1e6, 1e9, 1e12, 123456789.123])
